@@ -39,7 +39,7 @@ func init() {
 			"position fields the restorer leaves NoPos are outside the statement (it speaks of positions the restorer assigns) and are only counted",
 			"a comment-token inversion that gofmt itself produces when the comment is spliced textually before the token is attributed to go/printer, not to dst",
 		},
-		Required: map[string]int{"configs": 8},
+		Required: map[string]int{"configs": 9},
 	})
 }
 
@@ -519,7 +519,7 @@ func runC12(c *fw.Ctx) {
 		if src == nil || len(src) > 150000 {
 			continue
 		}
-		for _, cfg := range []string{"plain", "dense", "imports", "extras", "imports-pruned", "cloned"} {
+		for _, cfg := range []string{"plain", "dense", "imports", "extras", "imports-pruned", "cloned", "odd-spacing"} {
 			id := "file:" + corpus.Rel(p) + "/" + cfg
 			c.Case(id, func() {
 				c.Observe("configs", cfg)
@@ -566,6 +566,28 @@ func runC12(c *fw.Ctx) {
 				if err != nil {
 					c.Count("inconclusive_decorate_error", 1)
 					return
+				}
+				if cfg == "odd-spacing" {
+					// spacing values outside None / NewLine / EmptyLine on some nodes (a decrement too
+					// many, an uninitialised conversion): whatever they are taken to mean, positions
+					// stay ordered and inside the file
+					rr := c.Rand(id)
+					odd := []dst.SpaceType{-2, -1, 3, 9}
+					dst.Inspect(df, func(n dst.Node) bool {
+						if n == nil {
+							return false
+						}
+						if _, isFile := n.(*dst.File); isFile {
+							return true
+						}
+						switch rr.Intn(12) {
+						case 0:
+							n.Decorations().Before = odd[rr.Intn(len(odd))]
+						case 1:
+							n.Decorations().After = odd[rr.Intn(len(odd))]
+						}
+						return true
+					})
 				}
 				if cfg == "cloned" {
 					// the tree that is restored is a clone of the decorated one
